@@ -223,6 +223,7 @@ type runner struct {
 	crashes []sim.Violation
 	trouble []string
 	nproc   int
+	excluded int
 	extraEnv []string
 }
 
@@ -232,6 +233,9 @@ func (r *runner) workerCmd(env ...string) *exec.Cmd {
 		"VERIF_PROP="+r.prop, "VERIF_TIER="+r.tier, "VERIF_SEED="+strconv.FormatUint(r.seed, 10),
 		"VERIF_BCL_BIN="+filepath.Join(buildDir, "bcl"), "VERIF_DIR="+verifDir, "VERIF_TMP="+r.tmp,
 		"GORACE=halt_on_error=0 history_size=2")
+	if !r.cfg.Race {
+		cmd.Env = append(cmd.Env, "VERIF_AS_LIMIT_MB=8192") // not for -race binaries: the detector reserves terabytes of address space
+	}
 	cmd.Env = append(cmd.Env, r.extraEnv...)
 	cmd.Env = append(cmd.Env, env...)
 	return cmd
@@ -488,6 +492,12 @@ func (r *runner) handleDeath(idx int, stalled bool, stderr string, gmp int) {
 		return "", ""
 	}
 	sig, detail := classify(sc)
+	if oomExcluded(sig, stderr, sc) {
+		r.mu.Lock()
+		r.excluded++
+		r.mu.Unlock()
+		return
+	}
 	if strings.HasPrefix(sig, "harness:") {
 		r.mu.Lock()
 		r.trouble = append(r.trouble, fmt.Sprintf("HARNESS DEFECT at run %d: %s: %s", idx, sig, detail))
@@ -538,6 +548,22 @@ func (r *runner) handleDeath(idx int, stalled bool, stderr string, gmp int) {
 	r.mu.Lock()
 	r.crashes = append(r.crashes, v)
 	r.mu.Unlock()
+}
+
+// oomExcluded recognises the one case the properties exclude: a run whose legitimate result
+// does not fit in memory (string repetition). It is accepted only when the runtime itself
+// reported memory exhaustion (or the overflow check of strings.Repeat) and the source
+// contains a '*'; such runs are counted in the evidence, not reported.
+func oomExcluded(sig, batchStderr string, sc *sim.Scenario) bool {
+	if bytes.IndexByte(sc.Src, '*') < 0 {
+		return false
+	}
+	for _, s := range []string{sig, batchStderr} {
+		if strings.Contains(s, "out of memory") || strings.Contains(s, "Repeat output length overflow") || strings.Contains(s, "cannot allocate memory") {
+			return true
+		}
+	}
+	return false
 }
 
 // ---- race reports (C12)
@@ -986,6 +1012,9 @@ func (r *runner) finish(start time.Time) int {
 		},
 		"known_findings_matched": known,
 		"simulated_time":         "bcl reads no clock; time is logical: one tick per scheduler decision (sim_steps_total)",
+	}
+	if r.excluded > 0 {
+		cov["excluded_memory_exhaustion_runs"] = r.excluded
 	}
 	if r.cfg.Digests {
 		cov["cross_process_digest_comparisons"] = crossChecked
